@@ -88,20 +88,20 @@ theorem pySetSliceU_at (pre : List PVal) (c : PVal) (post xs : List PVal) :
   simp [pySetSliceU, userListData?, tagListOf, fieldGet?, fieldSet, setSlice, clampIdx, h1, h2, h3]
 
 
-abbrev TState := PVal × PVal × PVal × PVal
 
-/-- the backwards index loop of `TagList.tagify`, whatever its body: if the pass at index `len(pre)` on the working copy
+/-- the backwards index loop of `TagList.tagify`, whatever its body and whatever other locals its
+    state carries (`get` reads `cp` out of the state): if the pass at index `len(pre)` on the working copy
     `pre ++ c :: post` rewrites exactly that position into what `stepSpec tf c` says, the remaining `len(pre)` passes
     (indices `len(pre)-1 … 0`) leave `pre.flatMap (stepSpec tf) ++ post` -/
-theorem tagify_loop_aux (tv : Node → PVal) (tf : Node → TagifyResult) (orig : List Node)
-    (f : PVal → TState → PyM (ForInStep TState))
-    (hstep : ∀ (pre : List Node) (c : Node) (post : List Node) (s : TState), c ∈ orig →
-      s.1 = tagListOf ((pre ++ c :: post).map (embT tv)) →
-      ∃ s', f (.int pre.length) s = .ok (.yield s') ∧ s'.1 = tagListOf ((pre ++ stepSpec tf c ++ post).map (embT tv))) :
-    ∀ (n : Nat) (pre post : List Node) (s : TState), pre.length = n → (∀ c ∈ pre, c ∈ orig) →
-      s.1 = tagListOf ((pre ++ post).map (embT tv)) →
+theorem tagify_loop_aux {σ : Type} (get : σ → PVal) (tv : Node → PVal) (tf : Node → TagifyResult) (orig : List Node)
+    (f : PVal → σ → PyM (ForInStep σ))
+    (hstep : ∀ (pre : List Node) (c : Node) (post : List Node) (s : σ), c ∈ orig →
+      get s = tagListOf ((pre ++ c :: post).map (embT tv)) →
+      ∃ s', f (.int pre.length) s = .ok (.yield s') ∧ get s' = tagListOf ((pre ++ stepSpec tf c ++ post).map (embT tv))) :
+    ∀ (n : Nat) (pre post : List Node) (s : σ), pre.length = n → (∀ c ∈ pre, c ∈ orig) →
+      get s = tagListOf ((pre ++ post).map (embT tv)) →
       ∃ s', forIn ((List.range n).map fun (i : Nat) => PVal.int (i : Int)).reverse s f = .ok s'
-        ∧ s'.1 = tagListOf ((pre.flatMap (stepSpec tf) ++ post).map (embT tv)) := by
+        ∧ get s' = tagListOf ((pre.flatMap (stepSpec tf) ++ post).map (embT tv)) := by
   intro n
   induction n with
   | zero =>
@@ -125,17 +125,18 @@ theorem tagify_loop_aux (tv : Node → PVal) (tf : Node → TagifyResult) (orig 
     rw [← hl', h1]
     simpa [hl'] using h3
 
-theorem tagify_loop_k {β : Type} (tv : Node → PVal) (tf : Node → TagifyResult) (orig : List Node)
-    (f : PVal → TState → PyM (ForInStep TState))
-    (hstep : ∀ (pre : List Node) (c : Node) (post : List Node) (s : TState), c ∈ orig →
-      s.1 = tagListOf ((pre ++ c :: post).map (embT tv)) →
-      ∃ s', f (.int pre.length) s = .ok (.yield s') ∧ s'.1 = tagListOf ((pre ++ stepSpec tf c ++ post).map (embT tv)))
-    (k : TState → PyM β) (r : PyM β)
-    (hk : ∀ s, s.1 = tagListOf ((orig.flatMap (stepSpec tf)).map (embT tv)) → k s = r) :
+theorem tagify_loop_k {β σ : Type} (get : σ → PVal) (tv : Node → PVal) (tf : Node → TagifyResult) (orig : List Node)
+    (init : σ) (hinit : get init = tagListOf (orig.map (embT tv)))
+    (f : PVal → σ → PyM (ForInStep σ))
+    (hstep : ∀ (pre : List Node) (c : Node) (post : List Node) (s : σ), c ∈ orig →
+      get s = tagListOf ((pre ++ c :: post).map (embT tv)) →
+      ∃ s', f (.int pre.length) s = .ok (.yield s') ∧ get s' = tagListOf ((pre ++ stepSpec tf c ++ post).map (embT tv)))
+    (k : σ → PyM β) (r : PyM β)
+    (hk : ∀ s, get s = tagListOf ((orig.flatMap (stepSpec tf)).map (embT tv)) → k s = r) :
     (forIn ((List.range orig.length).map fun (i : Nat) => PVal.int (i : Int)).reverse
-        (tagListOf (orig.map (embT tv)), PVal.none, PVal.none, PVal.none) f >>= k) = r := by
-  obtain ⟨s', h1, h2⟩ := tagify_loop_aux tv tf orig f hstep orig.length orig []
-    (tagListOf (orig.map (embT tv)), PVal.none, PVal.none, PVal.none) rfl (fun _ h => h) (by simp)
+        init f >>= k) = r := by
+  obtain ⟨s', h1, h2⟩ := tagify_loop_aux get tv tf orig f hstep orig.length orig []
+    init rfl (fun _ h => h) (by simpa using hinit)
   rw [h1, ok_bind]
   exact hk s' (by simpa using h2)
 
